@@ -160,10 +160,25 @@ def run(ctx, report):
     # default pair itself
     bm_get = mod.method('bm', 'get_val')
     bm_set_ = mod.method('bm', 'set_val')
-    if 'v >> self.off & (1 << self.l) - 1' in u(bm_get) and '(v & (1 << self.l) - 1) << self.off' in u(bm_set_):
-        R3.ok('bm.get_val/set_val', sample='bm.get_val = (v>>off)&mask ; bm.set_val = (v&mask)<<off')
+    # evaluated on field width x offset x values: set_val(get_val(word)) gives back exactly the bits of the field, get_val(set_val(x)) gives x back
+    from ..consteval import Evaluator as _Ev3, Obj as _Obj3, NotConst as _NC3, PyRaise as _PR3
+    pair_ok, pair_why = True, ''
+    for l_, off_ in ((1, 0), (1, 31), (5, 21), (5, 0), (6, 26), (10, 1), (16, 0), (24, 2), (14, 2)):
+        fld = _Obj3('bm')
+        fld.l, fld.off, fld.p_property = l_, off_, []
+        for word in (0, 0xFFFFFFFF, 0xA5A5A5A5, 0x5A5A5A5A, 1 << off_, ((1 << l_) - 1) << off_):
+            try:
+                x_ = _Ev3({}).call_user(bm_get, [fld, word])
+                back = _Ev3({}).call_user(bm_set_, [fld, x_])
+            except (_NC3, _PR3) as e:
+                raise AnalysisError('bm.get_val / bm.set_val are outside the evaluable subset: %s' % e)
+            want_x = (word >> off_) & ((1 << l_) - 1)
+            if x_ != want_x or back != (want_x << off_):
+                pair_ok, pair_why = False, 'a field of %d bits at offset %d: get_val(%#010x) = %s, set_val of that = %s' % (l_, off_, word, x_, back)
+    if pair_ok:
+        R3.ok('bm.get_val/set_val', sample='bm.get_val / bm.set_val evaluated on 9 field layouts x 6 words: extract and insert are inverse')
     else:
-        R3.violation('bm.get_val/set_val', 'bm:get_val/set_val', 'default field extract/insert are no longer inverse', where(mod, bm_get))
+        R3.violation('bm.get_val/set_val', 'bm:get_val/set_val', 'default field extract/insert are no longer inverse (%s)' % pair_why, where(mod, bm_get))
     binm = mod.method('ppc_mn', 'bin')
     if 'v |= m.bin()' in u(binm) and 'for m in self.mask' in u(binm):
         R3.ok('ppc_mn.bin', sample='ppc_mn.bin ORs every field')
